@@ -42,6 +42,27 @@ def step (st : St) : List String → St × String
       | some h => (st, "ok hash=" ++ Tok.hex h)
       | none => (st, "err decode")
     | none => (st, "bad-op")
+  | ["hdr", tag, sub, hx] =>
+    match Tok.nat? tag, Tok.unhex hx with
+    | some t, some bs =>
+      match firstSpan bs with
+      | some sp => (st, "ok hash=" ++ Tok.hex (headerHashN2N t (if sub = "-" then none else Tok.nat? sub) sp))
+      | none => (st, "err decode")
+    | _, _ => (st, "bad-op")
+  | ["byrontx", hx] =>
+    match Tok.unhex hx with
+    | some bs =>
+      match firstSpan bs with
+      | some sp => (st, "ok hash=" ++ Tok.hex (Blake2b.blake2b256 sp))
+      | none => (st, "err decode")
+    | none => (st, "bad-op")
+  | ["body", _, hx] =>
+    match Tok.unhex hx with
+    | some bs =>
+      match firstSpan bs with
+      | some sp => (st, "ok hash=" ++ Tok.hex (Blake2b.blake2b256 sp))
+      | none => (st, "err decode")
+    | none => (st, "bad-op")
   | ["datum", hx] =>
     match Tok.unhex hx with
     | some bs =>
